@@ -276,6 +276,23 @@ func c082(c *an.Ctx, p *an.Prog, x *fsx, prop string) {
 			} else if firstWrite == auxIdx {
 				r["C08.3"].bad = append(r["C08.3"].bad, "aux data is written before the new first line")
 			}
+			if firstWrite < 0 || (syncIdx >= 0 && firstWrite > syncIdx) {
+				r["C09.1"].bad = append(r["C09.1"].bad, "no content write to the temp file itself precedes its fsync (e.g. writes go through a buffer that is flushed later): the record would become visible before its content is durable (path "+s.BlockPath()+")")
+			}
+			// writers wrapped around the temp file must not exist: they would hold data back past the fsync
+			for _, e := range s.Events {
+				if e.Kind == "call" && (e.Callee == "bufio.NewWriter" || e.Callee == "bufio.NewWriterSize") && len(e.Args) > 0 && e.Args[0].K == F.K {
+					flushed := false
+					for _, e2 := range s.Events {
+						if e2.Kind == "call" && !e2.Deferred && e2.Callee == "(*bufio.Writer).Flush" && e2.Args[0].K == e.Res.K && callErrNilSingle(s, e2.Res) && syncIdx >= 0 && indexOfInstr(s.Events, e2.In) < syncIdx {
+							flushed = true
+						}
+					}
+					if !flushed {
+						r["C09.1"].bad = append(r["C09.1"].bad, "a buffered writer over the temp file is not flushed (with checked error) before the fsync")
+					}
+				}
+			}
 			if syncIdx < 0 {
 				r["C09.1"].bad = append(r["C09.1"].bad, "temp file is not fsynced before the rename (path "+s.BlockPath()+")")
 			} else {
